@@ -8,7 +8,7 @@ TB_MIR = "rustc's MIR construction (nightly 1.97) is the program; rules/tss.py a
 CHECKS = {
  "C01": dict(cat="other", ref="DESIGN.md §3.1", technique="static hazard-site analysis over every crate-local body reachable from evaluation in the monomorphic instance graph (rustc_private driver; resolved MIR callees)",
    text="Every crate-local MIR body reachable from the three evaluation entry points - directly or through upstream generic code that calls back into hand-written Debug/Display/PartialEq/Clone/Drop impls - is scanned; every Assert terminator, integer arithmetic op, numeric cast and resolved callee is classified total/partial/silent. A pass means no reachable construct can panic or lose range, for all inputs; it is not a sample of inputs.",
-   note=TB_MIR + "spec/callees.py classification of external callees (unclassified ones are assumed total and listed in the evidence); user functions and allocation failure excluded; 10 arithmetic-overflow sites are known findings."),
+   note=TB_MIR + "spec/callees.py classification of external callees (unclassified ones are assumed total and listed in the evidence); user functions and allocation failure excluded; 10 arithmetic-overflow sites are known findings, keyed by the operator cell in which they are met (node kind, operand types), not by the function they stand in."),
  "C02": dict(cat="other", ref="DESIGN.md §3.2", technique="tag-symbolic abstract interpretation of MIR; summary-vs-table comparison; tree-rewrite equivalence by abstract evaluation of concrete tree levels with the crate's own evaluator",
    text="All 1540 (operator, operand-tag tuple) cells and the dispatch wiring of all 47 node kinds are read off the MIR and compared with a reviewed table. Decides that each cell is the designated operation on the designated operands in order with the designated error; does NOT decide numeric exactness of std/rust_decimal/chrono.",
    note=TB_MIR + "spec/optable.json (frozen from the fixed tree, reviewed); semantics of MIR primitives and named library functions as documented."),
@@ -19,7 +19,7 @@ CHECKS = {
    text="All 276 operand tuples containing None (every operator, every tag of the other operand) plus the None paths of if/and/or/equality are enumerated; each must give the prescribed outcome on every path. Exhaustive over the finite tag domain.",
    note=TB_MIR + "spec/typerules.py none_rule written from the property text; derived PartialEq of Value."),
  "C05": dict(cat="other", ref="DESIGN.md §3.5", technique="path enumeration on the pre-transform coroutine CFG of the evaluator (ordered evaluation events); tree-rewrite equivalence (traces) for constructors / transformers",
-   text="Every acyclic path of the evaluator's coroutine body for each of the 47 node kinds (loops unrolled twice) is enumerated with its ordered sub-evaluations and compared with the specified path set: laziness of if/and/or/equality, left-to-right single evaluation elsewhere, first error ends evaluation.",
+   text="Every acyclic path of the evaluator's coroutine body for each of the 47 node kinds (loops unrolled twice) is enumerated with its ordered sub-evaluations and compared with the specified path set: laziness of if/and/or/equality, left-to-right single evaluation elsewhere, first error ends evaluation. Every entry into the evaluator (Expr::evaluate, the per-rule method) must hand the whole expression to it exactly once and return its result unchanged; a reached call invokes its user function (C11's invocation rules, imported).",
    note=TB_MIR + "await recogniser (poll == output of the awaited future); for-loops unrolled twice."),
  "C13": dict(cat="other", ref="DESIGN.md §3.13", technique="hazard-site analysis + tag-symbolic method summaries of the serde Serializer impls (found by trait; private collection wrappers read through) vs a per-kind mapping",
    text="No panic/lossy-cast site in any serializer body; each of the 30+28 Serializer methods and 18 collector methods builds the Value its serde kind prescribes (collector state tracked). Coincidence with serde_json is NOT decided.",
@@ -30,7 +30,7 @@ CHECKS = {
 }
 CHECKS.update({
  "C09": dict(cat="other", ref="DESIGN.md §3.9", technique="path enumeration of the coroutine bodies of evaluate_value / evaluate (MIR; loop-driving helpers inlined, only the per-expression evaluation opaque), structural matcher on every path; imported cache-transparency (C11) and rule-order (C15) obligations",
-   text="All paths of RuleSet::evaluate_value (rule loop unrolled twice) and RuleSet::evaluate are enumerated with their ordered calls: one Outcome{value: stored per-rule result, rule: that rule} pushed per rule in iteration order of a plain forward iteration, no early exit, Ok(all outcomes); evaluate fails only through serialisation and otherwise delegates unchanged.",
+   text="All paths of RuleSet::evaluate_value (rule loop unrolled twice) and RuleSet::evaluate are enumerated with their ordered calls: one Outcome{value: stored per-rule result, rule: that rule} pushed per rule in iteration order of a plain forward iteration, no early exit, Ok(all outcomes); evaluate fails only through serialisation and otherwise delegates unchanged; besides shared references the per-rule evaluation receives only the function cache as mutable state.",
    note=TB_MIR + "the per-rule evaluation is opaque here (its isolation rests on C11/C12); Vec::push / slice iteration order (std)."),
  "C10": dict(cat="other", ref="DESIGN.md §3.10", technique="MIR lookup summaries (which key on which container, what on absence) compared with the lookup rules; the context, its parts and the lookup chain behind it are located structurally",
    text="Summaries of the identifier lookup (x10 input tags), symbol and function table lookups, the 20 cells of the index step and the evaluator's rows for Reference/Symbol/Function/Index: the key is the node's own unmodified name/index, the container the addressed one, absence gives None for steps and a named error for top-level names.",
@@ -48,7 +48,7 @@ CHECKS.update({
    text="15 Send/Sync assertions over the public types, the three evaluation futures and a spawnable shape are type-checked against the current tree (cargo check, nothing executed); the compiler decides them for every instantiation. The run-time clause (same outcomes concurrently) rests on C12's structure and is not re-claimed.",
    note="rustc's trait solver; the witness source engines/typewit; negative twins (thorough) prove the helpers reject Rc / !Send futures."),
  "C19": dict(cat="other", ref="DESIGN.md §3.19", technique="recursion-cycle (SCC) analysis of the monomorphic instance call graph incl. derived impls, fmt fn pointers, vtables and drop glue",
-   text="Every call cycle whose depth follows the nesting of an Expr/Value tree must contain a depth test dominating the recursive calls; the generated LR parser must be non-recursive. Decides the cause of stack exhaustion (unbounded input-driven recursion), not the depth at which a given stack dies. 12 unguarded cycles are known findings, and so is the fact that three of them (drop glue of Expr and of Value, the metadata folder) are reachable from parse itself.",
+   text="Every call cycle whose depth follows the nesting of an Expr/Value tree must contain a depth test dominating the recursive calls (dynamic dispatch is closed for trait objects that range over tree nodes, so a boxed `dyn Iterator` re-wrapped around itself per node is a cycle); the generated LR parser must be non-recursive. Decides the cause of stack exhaustion (unbounded input-driven recursion), not the depth at which a given stack dies. 12 unguarded cycles are known findings, and so is the fact that three of them (drop glue of Expr and of Value, the metadata folder) are reachable from parse itself.",
    note="rustc instance resolution and upstream MIR; std-internal bounded recursion (sort, fmt) is excluded by rule."),
 })
 CHECKS.update({
